@@ -27,6 +27,9 @@ class LfricInterp(Interp):
         self.lfric_events = []        # (guard, object key, method, args)
         self.extern_handler = self._lfric_call
         self.struct_hints.update({"value": ("real", 0)})
+        for nm in ("np_xy", "np_z", "np_xyz", "nfaces", "nedges"):
+            self.struct_hints[nm] = ("integer", 0)
+        self.basis_of = {}
         self.kernel_calls = []        # (guard, name, [arg descriptors], loop stack snapshot)
         self.kernel_effect = None     # callable(self, kernel name, arg nodes, frame, guard): data effect of a kernel
         self.summarise = False        # True: every DO loop is summarised by a Skolem loop variable
@@ -88,7 +91,7 @@ class LfricInterp(Interp):
     # ------------------------------------------------------------ statements
     def exec_assign(self, lhs, rhs, frame, g, mask):
         # proxy = field%get_proxy(): the proxy IS the field object
-        if isinstance(lhs, F.Name) and self._is_method(rhs, "get_proxy"):
+        if isinstance(lhs, F.Name) and self._is_proxy_getter(rhs):
             base = self._method_base(rhs, frame)
             frame.vars[lname(lhs)] = Binding(lname(lhs), "struct", base.key, rank=base.rank, struct=base.struct)
             return
@@ -108,6 +111,31 @@ class LfricInterp(Interp):
             self.new_storage(key, b.tname, b.rank, is_input=True)
         bounds = self._comp_bounds(key, b.rank)
         frame.vars[name] = Binding(name, b.tname, key, rank=b.rank, bounds=bounds)
+
+    def exec_alloc(self, s, frame, g):
+        if isinstance(s, F.Deallocate_Stmt):
+            return
+        al = s.items[1]
+        for a in (al.items if isinstance(al, F.Allocation_List) else [al]):
+            name = lname(a.items[0])
+            b = frame.vars.get(name)
+            if b is None or not getattr(b, "is_pointer", False) or b.tname == "struct":
+                raise Unsupported("allocate " + name)
+            shp = a.items[1]
+            dims = list(shp.items) if shp is not None else []
+            ubs = []
+            for d in dims:
+                if isinstance(d, F.Allocate_Shape_Spec):
+                    if d.items[0] is not None:
+                        raise Unsupported("allocate with lower bound")
+                    d = d.items[1]
+                ubs.append(self.ev_scalar(d, frame, g))
+            self.fresh += 1
+            key = f"{self.prefix}alloc{self.fresh}_{name}"
+            self.new_storage(key, b.tname, len(ubs), is_input=True)     # contents undefined: arbitrary
+            nb = Binding(name, b.tname, key, rank=len(ubs), bounds=[(z3.IntVal(1), u) for u in ubs])
+            nb.is_pointer = True
+            frame.vars[name] = nb
 
     def exec_ptr_assign(self, s, frame, g):
         lhs, rhs = s.items[0], s.items[2]
@@ -142,7 +170,7 @@ class LfricInterp(Interp):
             elif b.rank == 0:
                 bounds = []
             else:
-                raise Unsupported("rank-%d pointer target" % b.rank)
+                bounds = self._comp_bounds(key, b.rank)
             frame.vars[name] = Binding(name, b.tname, key, rank=b.rank, bounds=bounds)
             return
         raise Unsupported("pointer assignment form")
@@ -166,6 +194,10 @@ class LfricInterp(Interp):
                                                 else [args])
                 return lname(node.items[0]), lname(last.items[0]), args
         return None
+
+    def _is_proxy_getter(self, node):
+        mp = self._method_parts(node)
+        return mp is not None and mp[1] in ("get_proxy", "get_quadrature_proxy")
 
     def _is_method(self, node, which):
         mp = self._method_parts(node)
@@ -237,6 +269,10 @@ class LfricInterp(Interp):
                 except Unsupported:
                     vals.append(None)
             self.lfric_events.append((g, okey, meth, tuple(vals)))
+            if meth == "compute_function" and args and isinstance(args[-1], F.Name):
+                ba = self.lookup(lname(args[-1]), frame)
+                if ba is not None and ba.key:
+                    self.basis_of[ba.key] = okey        # evaluator array <- the quadrature object that filled it
             return True
         if name.endswith("_code"):
             descr = []
